@@ -101,7 +101,7 @@ def build(lexmod):
             env.update(semi_env)
             restricted = ("(new() is not None and new().type == 'LINE_TERMINATOR' and old(self.cur_token) is not None and "
                           "old(self.cur_token).type in ('BREAK', 'CONTINUE', 'RETURN', 'THROW'))")
-            header = "(old(self.cur_token) is not None and old(self.cur_token).type in ('FOR', 'WHILE', 'IF'))"
+            header = "(old(self.cur_token) is not None and old(self.cur_token).type in ('FOR', 'WHILE', 'IF', 'WITH'))"
             d0, i0 = st.depth, st.inner
             ens = ['self.cur_token is new()', 'self.prev_token is old(self.cur_token)',
                    "implies(%s, result.type == 'AUTOSEMI' and result.lexpos == new().lexpos)" % restricted,
